@@ -87,7 +87,11 @@ func (k *Keeper) NewEVM(
 			}
 
 			metadata := contract.GetMetadata()
-			contracts = append(contracts, corevm.NewCustomPrecompiledContract(common.BytesToAddress(metadata.Address), methods, metadata.Name))
+			cpc := corevm.NewCustomPrecompiledContract(common.BytesToAddress(metadata.Address), methods, metadata.Name)
+			if metadata.Disabled {
+				cpc.(*corevm.CustomPrecompiledContract).WithDisabled(true)
+			}
+			contracts = append(contracts, cpc)
 		}
 		evm = evm.WithCustomPrecompiledContracts(contracts...)
 	}
